@@ -223,6 +223,21 @@ def rig_r_miri(chk, tier, seed, corpus_path):
     chk.floor("miri_cases", st["cases"], 100)
 
 
+def rig_fuzz(chk, tier, seed, items):
+    """Coverage-guided complement (libFuzzer + ASan), bounded runs, thorough tier."""
+    st = {}
+    seeds = [b for _, b in items]
+    for target, runs, ml in (("fuzz_decode", 4000000, 1200), ("fuzz_decrypt", 2000000, 1200)):
+        r = runner.run_fuzz(target, runs, seed, seeds=seeds if target == "fuzz_decode" else [b"\x02\x08" + b for b in seeds[:40]] + [b"\x03\x08" + b for b in seeds[:40]], max_len=ml)
+        st[target] = {"execs": r["execs"], "crashes": len(r["crashes"])}
+        chk.seen(r["execs"])
+        chk.distinct.add("fuzz:" + target)
+        for sig, art, se in r["crashes"]:
+            chk.violation(sig, "libFuzzer target %s crashed on input %s : %s" % (target, art[:200], se[-300:].replace("\n", " | ")),
+                          {"rig": "fuzz", "target": target, "input": art})
+    chk.extra["fuzz"] = st
+
+
 def rig_p(chk, tier, seed):
     specs = hostile.all_specs(quick=(tier == "quick"))
     rng = random.Random(seed)
@@ -305,9 +320,12 @@ def main():
     chk.sample({"corpus_item": items[0][0], "hex": items[0][1].hex()})
     chk.extra["corpus_messages"] = len(items)
     try:
-        stages = os.environ.get("VERIF_STAGES", "r,miri,p").split(",")
-        for name, fn in (("r", lambda: rig_r(chk, a.tier, a.seed, cpath)), ("miri", lambda: rig_r_miri(chk, a.tier, a.seed, cpath)),
-                         ("p", lambda: rig_p(chk, a.tier, a.seed))):
+        stage_fns = [("r", lambda: rig_r(chk, a.tier, a.seed, cpath)), ("miri", lambda: rig_r_miri(chk, a.tier, a.seed, cpath)),
+                     ("p", lambda: rig_p(chk, a.tier, a.seed))]
+        if a.tier == "thorough":
+            stage_fns.append(("fuzz", lambda: rig_fuzz(chk, a.tier, a.seed, items)))
+        stages = os.environ.get("VERIF_STAGES", "r,miri,p,fuzz").split(",")
+        for name, fn in stage_fns:
             if name in stages:
                 t = time.time()
                 fn()
